@@ -357,6 +357,109 @@ class BundledDriver(explore.Driver):
                 acc.violation(["transparency(bundled)", p, "differs-from-fresh-registry", cause], {"history": [list(e) for e in hist], "probe": p, "declarative_state": {"defined": s.defined, "default_system": s.system, "contexts": s.stack}}, want[p], o)
 
 
+# ----------------------------------------------------------------------------- group membership memo
+
+GLINES = """
+ua = [A]
+ub = [B]
+inch = 2 * ua
+foot = 12 * inch
+ell = 45 * inch
+x1 = 7 * inch
+x2 = 9 * inch
+bb = 4 * ub
+@group G1
+    yard = 3 * foot
+@end
+@group G2 using G1
+    fathom = 6 * foot
+@end
+@group G3 using G2
+    chain = 66 * foot
+@end
+@system s3 using G3
+    foot : ua
+@end
+""".strip().splitlines()
+G_OWN = {"G1": {"yard"}, "G2": {"fathom"}, "G3": {"chain"}}
+G_USES = {"G1": [], "G2": ["G1"], "G3": ["G2"]}
+G_A_UNITS = {"ua", "inch", "foot", "yard", "ell", "fathom", "chain", "x1", "x2"}
+
+
+class GroupMemoDriver(explore.Driver):
+    """Group.members / System.members are memoised and invalidated upwards when a group is edited: every history of
+    membership QUERIES (on a group, on a group using it, on the system on top, through get_compatible_units) and EDITS
+    (add_units / remove_units on the lowest and the middle group) — answers equal a plain set model of the declarations"""
+
+    EV = ([("q", "mem", g) for g in ("G1", "G2", "G3")] + [("q", "compat", "G2"), ("q", "compat", "G3"), ("q", "sys"), ("q", "compat", "s3")]
+          + [("add", g, x) for g in ("G1", "G2") for x in ("x1", "x2", "bb")] + [("rm", "G1", "x1"), ("rm", "G1", "yard"), ("rm", "G2", "fathom")])
+
+    def fresh(self):
+        regs.clear_process_caches()
+        s = Sys.__new__(Sys)
+        s.reg = regs.tiny(GLINES, non_int_type="Fraction")
+        s.own = {g: set(v) for g, v in G_OWN.items()}
+        return s
+
+    def events(self):
+        return list(self.EV)
+
+    @staticmethod
+    def query(r, ev):
+        if ev[1] == "mem":
+            return sorted(r.get_group(ev[2]).members)
+        if ev[1] == "sys":
+            return sorted(r.get_system("s3").members)
+        return sorted(next(iter(u._units)) for u in r.get_compatible_units("ua", ev[2]))
+
+    def apply(self, s, ev):
+        r = s.reg
+        if ev[0] == "q":
+            return call(lambda: self.query(r, ev))
+        if ev[0] == "add":
+            s.own[ev[1]].add(ev[2])
+            return call(lambda: r.get_group(ev[1]).add_units(ev[2]))[:1]
+        if ev[0] == "rm":
+            s.own[ev[1]].discard(ev[2])
+            return call(lambda: r.get_group(ev[1]).remove_units(ev[2]))[:1]
+        raise core.HarnessError(ev)
+
+    def fp(self, s, hist):
+        d = vars(s.reg)
+        return explore.fingerprint({g: (sorted(o._unit_names), sorted(o._used_groups), sorted(o._used_by), o._computed_members) for g, o in d["_groups"].items()},
+                                   {n: o._computed_members for n, o in d["_systems"].items()} if all(hasattr(o, "_computed_members") for o in d["_systems"].values()) else sorted(d["_systems"]))
+
+    @staticmethod
+    def model(own, g):
+        out = set(own[g])
+        for h in G_USES[g]:
+            out |= GroupMemoDriver.model(own, h)
+        return out
+
+    def check(self, acc, s, hist, ev, o):
+        if ev[1] == "mem":
+            want = sorted(self.model(s.own, ev[2]))
+        elif ev[1] == "sys":
+            want = sorted(self.model(s.own, "G3"))
+        else:
+            want = sorted(self.model(s.own, "G3" if ev[2] == "s3" else ev[2]) & G_A_UNITS)
+        acc.ev()
+        if o != ["ok", want]:
+            edits = [e for e in hist if e[0] != "q"]
+            acc.violation(["group-memo", ":".join(ev[1:]), "membership-differs-from-the-declarations", "after-edit-following-a-query" if edits and any(e[0] == "q" for e in hist[:len(hist) - 1]) else "plain"],
+                          {"history": [list(e) for e in hist], "probe": list(ev), "declared": {g: sorted(v) for g, v in s.own.items()}}, want, o)
+
+    def outcome_oracle(self, acc, s, hist, outs):
+        if hist and hist[-1][0] == "q":
+            self.check(acc, s, hist, hist[-1], outs[-1])
+
+    def oracle(self, acc, s, hist, outs):
+        for ev in self.EV:
+            if ev[0] == "q":
+                s2, _ = explore.run_history(self, hist)
+                self.check(acc, s2, hist + (ev,), ev, call(lambda: self.query(s2.reg, ev)))
+
+
 # ----------------------------------------------------------------------------- per-object memos
 
 OBJ_UNITS = ["meter", "kilometer / hour", "nanometer", "newton * meter", "percent", "degC", "liter"]
@@ -436,6 +539,9 @@ def shards(tier, seed):
     for e in BundledDriver.EV:
         out.append(("D", dD, list(e)))
     out.append(("objmemo", 0, None))
+    out.append(("G", 0, None))
+    for e in GroupMemoDriver.EV:
+        out.append(("G", 4 if tier == "quick" else 5, list(e)))
     return out
 
 
@@ -443,7 +549,7 @@ def run_shard(acc, shard, tier, seed):
     which, depth, first = shard
     if which == "objmemo":
         return run_object_memo(acc)
-    drv = CacheDriver(sequential=(tier == "quick")) if which == "T" else BundledDriver()
+    drv = CacheDriver(sequential=(tier == "quick")) if which == "T" else (GroupMemoDriver() if which == "G" else BundledDriver())
     roots = [()] if first is None else [(tuple(first),)]
     explore.explore(drv, acc, depth, roots=roots, oracle_on="new" if tier == "quick" else "all")
     acc.dim(f"events[{which}]", len(drv.events()))
@@ -454,6 +560,13 @@ def replay(rec):
     acc = core.Acc(PROPERTY)
     if site[0] == "object-memo":
         run_object_memo(acc)
+        return tuple(site) in {tuple(v["site"]) for v in acc.violations}, {}
+    if site[0] == "group-memo":
+        drv = GroupMemoDriver()
+        hist = tuple(tuple(e) for e in case["history"])
+        s, outs = explore.run_history(drv, hist)
+        drv.outcome_oracle(acc, s, hist, outs)
+        drv.oracle(acc, s, hist, outs)
         return tuple(site) in {tuple(v["site"]) for v in acc.violations}, {}
     drv = BundledDriver() if "bundled" in site[0] else CacheDriver(sequential=(rec.get("tier", "quick") == "quick"))
     hist = tuple(tuple(e) for e in case["history"])
@@ -475,3 +588,4 @@ MANIFEST = {
     "query kinds are not explored.",
     "ref": "DESIGN.md §4 C13",
 }
+MANIFEST["text"] += ' Group membership memo: BFS to depth 4 (5 thorough) over 16 events (membership queries on a group, on the groups using it, on the system on top and through get_compatible_units; add_units / remove_units on the lowest and middle group) against a plain set model, every query answer checked on every transition.'
